@@ -268,6 +268,28 @@ CHECKS = {
                    "not modelled - leaks, stop_data order and restart/modify refusal are measured on the "
                    "implementation and only combined by the Coq monitor.",
         design_ref="DESIGN.md section 6/C08"),
+    'C13': dict(
+        text="Model/Interval.v gives the numeric semantics (padding, range checks incl. leap years, "
+             "Python's tuple sort, membership, as_list, as_string), Model/IntervalParse.v the string "
+             "notations (delimiters, separator priority, traditional formats with the regex-search "
+             "semantics of _convert_str, ISO 8601 as Python 3.12 accepts it); both map every notation "
+             "to one normal form. Theorems (Props/C13.v): time ranges = half-open arc on the circle of "
+             "one day (wrap, equal endpoints = whole day), date ranges = closed arc on the 366-day "
+             "circle, date-time ranges never wrap; normal form is full-length, range-checked, idempotent "
+             "and sorted for every input; read-back of rendered endpoints (all 86 400 whole seconds and "
+             "366 dates by finite sweep, fraction digits in general, all month-name prefixes x 3 "
+             "spellings). Tie: as_list(), as_string(), membership of probe moments and rejection of "
+             "every generated notation / sequence / malformed mutant must equal the model's; the monitor "
+             "compares the normal forms of all notations of one interval, both round trips and the "
+             "membership rule on the linear scales.",
+        technique="Coq proof (lia over euclidean division, finite sweeps lifted with forallb_forall) + "
+                  "model/implementation correspondence and monitor by vm_compute",
+        level_note="Trusted: Coq kernel/vm_compute, hand-written model tied by this run's correspondence; "
+                   "partial: notation equivalence and the round trip of whole interval strings and "
+                   "date-times are decided per generated input (every notation must produce the model's "
+                   "normal form), not by a theorem over all strings; Python's fromisoformat is modelled by "
+                   "a hand-written grammar (calendar dates, no time zones).",
+        design_ref="DESIGN.md section 6/C13"),
 }
 
 NOT_YET = "check not built yet in this round (planned: Coq model + theorems + correspondence, see DESIGN.md section 6)"
